@@ -12,6 +12,21 @@ OUT = os.path.join(ROOT, 'lean', 'Orca', 'Gen', 'ValTypes.lean')
 NUM = ['I32', 'I64', 'F32', 'F64', 'V128']
 
 
+def _refconsts():
+    """wasmparser's `RefType::NAME` constants, read from its source: NAME -> abstract heap type, nullable NAME -> base NAME"""
+    import glob
+    c = sorted(glob.glob('/root/.cargo/registry/src/*/wasmparser-0.235.0/src/readers/core/types.rs'))
+    if not c:
+        return {}, {}
+    src = open(c[0]).read()
+    base = {m.group(1): m.group(2) for m in re.finditer(r'pub const (\w+): Self = RefType::from_u32\(Self::(\w+)_ABSTYPE\);', src)}
+    nul = {m.group(1): m.group(2) for m in re.finditer(r'pub const (\w+): Self = RefType::(\w+)\.nullable\(\);', src)}
+    return base, nul
+
+
+REFCONST_BASE, REFCONST_NULLABLE = _refconsts()
+
+
 def die(m):
     sys.exit('translator(valtypes): ' + m)
 
@@ -165,6 +180,18 @@ def main():
                 if 'ValType::FUNCREF' in b or 'ValType::EXTERNREF' in b:
                     h = 'Func' if 'FUNCREF' in b else 'Extern'
                     rows.append(f'  | {lhs} => some (.ref true false .{h})')
+                    continue
+                # reference types written with wasmparser's named constants (`RefType::EXNREF`, `RefType::EXN.nullable()`)
+                km = None if enc else re.fullmatch(r'ValType::Ref\(\s*RefType::([A-Z0-9_]+)(\.nullable\(\))?\s*,?\s*\)', b.rstrip(','))
+                if km:
+                    cn, cnull, cbase = km.group(1), bool(km.group(2)), None
+                    if cn in REFCONST_NULLABLE:
+                        cnull, cn = True, REFCONST_NULLABLE[cn]
+                    if cn in REFCONST_BASE:
+                        cbase = next((h for h in abstract if h.lower() == REFCONST_BASE[cn].lower()), None)
+                    if cbase is None:
+                        die(f'{header}: DataType::{name}: unknown wasmparser constant in `{b[:100]}`')
+                    rows.append(f'  | {lhs} => some (.ref {"true" if cnull else "false"} false .{cbase})')
                     continue
                 # reference types
                 if enc:
